@@ -158,8 +158,11 @@ Definition wasm_fromInt (p0 : Z) : res str :=
     fi_reverse_loop FI_FUEL arr len arr_half_point arr_size is_negative.
 
 (* ---- TypeScript: (_, v) => [1, String(v)] *)
-(* the numbers that reach the prolog: integers (exact below 2^53), -0 and NaN (both produced by parseInt) *)
-Inductive jsnum := JInt (z : Z) | JNegZero | JNaN.
+(* the numbers that reach the prolog: integers that a double holds exactly (|z| <= 2^53), -0 and NaN (both produced by
+   parseInt), and JBig z: "the double nearest to an integer z beyond 2^53" - its value is NOT modelled (no theorem and no
+   differential case says anything about it) *)
+Inductive jsnum := JInt (z : Z) | JNegZero | JNaN | JBig (z : Z).
+Definition JS_EXACT : Z := 9007199254740992.      (* 2^53 *)
 (* Number::toString(x, 10) for an integer 0 <= k < 10^21: "the digits of the decimal representation of k" *)
 Fixpoint js_digits (fuel : nat) (k : Z) : str :=
   match fuel with
@@ -171,6 +174,7 @@ Definition js_String (v : jsnum) : str :=
   | JNaN => [78; 97; 78]%N
   | JNegZero => [48]%N
   | JInt z => if z <? 0 then 45%N :: js_digits 40 (- z) else js_digits 40 z
+  | JBig _ => []                                                               (* not modelled *)
   end.
 Definition ts_fromInt (v : jsnum) : str := js_String v.
 
@@ -200,12 +204,9 @@ Fixpoint ti_loop (fuel : nat) (p0 : str) (len i num : Z) : res (option Z) :=
         if nz (i32_gt_u (i32_and (i32_add character (-48)) 255) 9) then Ok None      (* br_if $B0 *)
         else ti_loop f p0 len (i32_add i 1) (i32_add (i32_add (i32_mul num 10) character) (-48))
   end.
-Definition wasm_toInt (p0 : str) : res Z :=
-  let len := alen p0 in                                                        (* 156 *)
-  (* 159: (block $B0 (br_if $B0 (local.get $len))) - the INNER block is also called $B0, so the branch leaves only the
-     inner block: both outcomes of the test continue with the next instruction.  The "check empty string" does nothing. *)
-  let _ := nz len in
-  c0 <- arr_get_s p0 0 ;;                                                      (* 164: traps on the empty array *)
+(* everything after the empty-string check, 160-205 *)
+Definition wasm_toInt_body (p0 : str) (len : Z) : res Z :=
+  c0 <- arr_get_s p0 0 ;;                                                      (* 164 *)
   let neg := i32_eq 45 c0 in
   let num := 0 in
   let i := neg in
@@ -214,8 +215,22 @@ Definition wasm_toInt (p0 : str) : res Z :=
   | Some num => Ok (i32_select (i32_sub 0 num) num neg)                        (* 197-203 *)
   | None => Ok 0                                                               (* 205 *)
   end.
+Definition wasm_toInt (p0 : str) : res Z :=
+  let len := alen p0 in                                                        (* 156 *)
+  if nz (i32_eqz len) then Ok 0                                                (* 159: (br_if $B0 (i32.eqz len)); 205 *)
+  else wasm_toInt_body p0 len.
+(* REGRESSION, before fix d2dae6b: line 159 was (block $B0 (br_if $B0 (local.get $len))) - the inner block was also
+   called $B0, so the branch left only the inner block and both outcomes of the test continued: the empty array trapped
+   at the array.get_s of line 164 *)
+Definition wasm_toInt_old (p0 : str) : res Z :=
+  let len := alen p0 in
+  let _ := nz len in
+  wasm_toInt_body p0 len.
 
-(* ---- TypeScript: ([, v]) => parseInt(v, 10)        (ECMA-262 19.2.5 with radix 10) *)
+(* ---- TypeScript (since fix 0289470):
+   ([, v]) => { const s = v; for (let i = s[0] === '-' ? 1 : 0; i < s.length; i++) { const c = s.charCodeAt(i);
+                if (c < 48 || c > 57) return 0; } return parseInt(s, 10) | 0; }
+   parseInt(s, 10) is ECMA-262 19.2.5 with radix 10 *)
 (* StrWhiteSpaceChar: WhiteSpace (TAB VT FF SP NBSP ZWNBSP USP) and LineTerminator (LF CR LS PS) *)
 Definition js_is_ws (c : N) : bool :=
   existsb (N.eqb c) [9; 10; 11; 12; 13; 32; 160; 5760; 8232; 8233; 8239; 8287; 12288; 65279]%N
@@ -234,13 +249,43 @@ Definition js_parseInt10 (s : str) : jsnum :=
   let z := js_digit_prefix s2 in                                               (* steps 11-12; radix 10: no 0x prefix *)
   match z with
   | [] => JNaN                                                                 (* step 13 *)
-  | _ => let m := digits_value z in                                            (* step 14: exact below 2^53 - assumed *)
-         if m =? 0 then (if sign =? -1 then JNegZero else JInt 0) else JInt (sign * m)
+  | _ => let m := digits_value z in                                            (* step 14; a double is exact up to 2^53 *)
+         if m =? 0 then (if sign =? -1 then JNegZero else JInt 0)
+         else if m <=? JS_EXACT then JInt (sign * m) else JBig (sign * m)
   end.
-Definition ts_toInt (s : str) : jsnum := js_parseInt10 s.
+(* x | 0 = ToInt32(x): NaN and -0 give 0, an exact integer is taken modulo 2^32 into [-2^31, 2^31) *)
+Definition js_bitor0 (v : jsnum) : jsnum :=
+  match v with JInt z => JInt (wrap32 z) | JNegZero => JInt 0 | JNaN => JInt 0 | JBig z => JBig z end.
+(* the for loop: true = left through i < s.length, false = return 0 *)
+Fixpoint tti_loop (fuel : nat) (s : str) (i : Z) : res bool :=
+  match fuel with
+  | O => OutOfFuel
+  | S f =>
+      if i <? alen s then
+        match nth_error s (Z.to_nat i) with
+        | Some c => if (c <? 48)%N || (57 <? c)%N then Ok false else tti_loop f s (i + 1)
+        | None => tti_loop f s (i + 1)                                         (* NaN < 48, NaN > 57 are false; not reached *)
+        end
+      else Ok true
+  end.
+Definition ts_toInt (s : str) : res jsnum :=
+  let i := match s with c :: _ => if (c =? 45)%N then 1 else 0 | [] => 0 end in    (* s[0] === '-' ? 1 : 0 *)
+  r <- tti_loop (S (length s)) s i ;;
+  if r then Ok (js_bitor0 (js_parseInt10 s)) else Ok (JInt 0).
+(* REGRESSION, before fix 0289470: ([, v]) => parseInt(v, 10) *)
+Definition ts_toInt_old (s : str) : jsnum := js_parseInt10 s.
+(* one characterisation for both back ends: "" -> 0, optional '-' then digits only -> the value wrapped to 32 bits
+   ("-" alone -> 0), anything else -> 0 *)
+Definition toInt_digits (s : str) : str := match s with c :: r => if (c =? 45)%N then r else s | [] => [] end.
+Definition toInt_spec (s : str) : Z :=
+  match s with
+  | [] => 0
+  | c :: r => if forallb is_digit (toInt_digits s)
+              then wrap32 ((if (c =? 45)%N then -1 else 1) * digits_value (toInt_digits s)) else 0
+  end.
 (* the 32-bit integer a JS number stands for, if any (-0 is 0 for every operation the emitted code applies to it except 1/x) *)
 Definition js_int_of (v : jsnum) : option Z :=
-  match v with JInt z => Some z | JNegZero => Some 0 | JNaN => None end.
+  match v with JInt z => Some z | JNegZero => Some 0 | JNaN => None | JBig _ => None end.
 
 (* ------------------------------------------------------------------------------------------------------------------ *)
 (* 4. Str.concat (the :: operator)                                                                                      *)
@@ -367,7 +412,11 @@ Section Vec.
   Definition as_non_null (x : option A) : res A := match x with Some a => Ok a | None => Trap TNullRef end.
 
   Definition wasm_vec_empty : res wvec := d <- arr_new None 0 ;; Ok (mkW d 0).                      (* 260-262 *)
-  Definition wasm_vec_withCapacity (cap : Z) : res wvec := d <- arr_new None cap ;; Ok (mkW d 0).   (* 264-266 *)
+  (* 264-271 (since fix 043a9a2): the size is (select cap 0 (i32.gt_s cap 0)) *)
+  Definition wasm_vec_withCapacity (cap : Z) : res wvec :=
+    d <- arr_new None (i32_select cap 0 (i32_gt_s cap 0)) ;; Ok (mkW d 0).
+  (* REGRESSION, before fix 043a9a2: (array.new $_VecData (ref.null eq) (local.get $cap)) *)
+  Definition wasm_vec_withCapacity_old (cap : Z) : res wvec := d <- arr_new None cap ;; Ok (mkW d 0).
   Definition wasm_vec_of (v : A) : res wvec := d <- arr_new (Some v) 1 ;; Ok (mkW d 1).             (* 268-272 *)
   Definition wasm_vec_length (this : wvec) : Z := wlen this.                                        (* 274-276 *)
   Definition wasm_vec_capacity (this : wvec) : Z := alen (wdata this).                              (* 278-280 *)
